@@ -94,6 +94,44 @@ def run(ctx):
             r.fail(rule, key, 'the service action can run although: ' + '; '.join(probs), loc=acts[0].loc)
         else:
             r.ok(rule, key, 'action runs only after session lookup by token%s and the time-out check passed' % (', the activation check' if need_act else ''), loc=acts[0].loc)
+    # ---------------- (v) a rejected request changes nothing: session state is only touched on the authorized path
+    rule = 'fault-path-writes-nothing'
+    def session_mutators(body):
+        out = []
+        for c in body.calls():
+            if c.callee.startswith('server::session::Session::'):
+                cb = db.body(c.callee)
+                if cb is not None and cb.argc >= 1 and cb.locals[1].startswith('&mut server::session::Session'):
+                    out.append(c)
+        return out
+    for fn, allowed in (('is_session_timed_out', {'terminate_session'}), ('is_session_activated', set())):
+        bs = db.find_bodies(MH + fn + '$')
+        if not bs:
+            r.lost(rule, fn, fn + ' not found'); continue
+        muts = [c for c in session_mutators(bs[0]) if c.callee.rsplit('::', 1)[-1] not in allowed]
+        if muts:
+            r.fail(rule, fn + ':mutates', 'the check helper %s modifies the session (%s) although the request may still be rejected' % (fn, muts[0].callee.rsplit('::', 1)[-1]), loc=muts[0].loc)
+        else:
+            r.ok(rule, fn + ':mutates', '%s does not modify the session (except terminating a timed-out one)' % fn, loc=bs[0].loc)
+    stamp_sites = 0
+    for bid, pth in db.path_of.items():
+        if not pth.startswith('server::'):
+            continue
+        bd = db.bodies[bid]
+        for c in bd.calls():
+            if c.callee.endswith('Session::set_last_service_request_timestamp'):
+                stamp_sites += 1
+                key = 'timestamp@' + '::'.join(pth.split('::')[-2:])
+                if not re.search(r'MessageHandler::validate_(activate_)?service_request$', pth):
+                    r.fail(rule, key, 'the session time-out clock is refreshed outside the validators (in %s)' % pth, loc=c.loc)
+                    continue
+                Fv = ctx.facts(bd)
+                acts = [a for a in bd.calls() if re.search(r'ops::FnOnce::call_once$', a.callee) and 'action' in fmt_sym(bd, Fv.sym_operand(a.args[0]))]
+                if acts and bd.dominates(acts[0].bb, c.bb):
+                    r.ok(rule, key, 'the time-out clock is refreshed only after the action ran (authorized path)', loc=c.loc)
+                else:
+                    r.fail(rule, key, 'the session time-out clock is refreshed on a path where the request was not authorized', loc=c.loc)
+    r.floor(rule, 'timestamp_refresh_sites', stamp_sites, 2)
     # ---------------- (iii)
     rule = 'activation-test'
     bs = db.find_bodies(MH + r'is_session_activated$')
